@@ -120,8 +120,26 @@ F7 ==
                        {B("inside_in", "inside", "in")}, {}, {})
 
 -----------------------------------------------------------------------------
-Init == CASE Fam = "F1" -> F1 [] Fam = "F2" -> F2 [] Fam = "F3" -> F3 [] Fam = "F4" -> F4 [] Fam = "F7" -> F7
+(* F9: ties (C16): three generated groups on the device, several of them identical, *)
+(* so that more than one device group is an equally good match for a target group  *)
+TieContents == {{"h1"}, {"h1", "h2"}}
+F9 ==
+  \E a \in InjSeqs(GLines("g0-DRC-0", "g1-DRC-0") \cup GLines("g2-DRC-0", "g2-DRC-0"), MaxLen),
+     b \in InjSeqs(GLines("g0", "g1"), MaxLen),
+     d0, d1, d2, ta, tb \in TieContents :
+    /\ (("g0" \notin UsedGroups(b)) => ta = {"h1"}) /\ (("g1" \notin UsedGroups(b)) => tb = {"h1"})
+    /\ dev = Cfg([inside_in |-> a],
+                 [n \in {"g0-DRC-0", "g1-DRC-0", "g2-DRC-0"} |->
+                    CASE n = "g0-DRC-0" -> G(d0) [] n = "g1-DRC-0" -> G(d1) [] OTHER -> G(d2)],
+                 {B("inside_in", "inside", "in")}, {}, {"inside"})
+    /\ tgt = Cfg([inside_in |-> b], [n \in UsedGroups(b) |-> IF n = "g0" THEN G(ta) ELSE G(tb)],
+                 {B("inside_in", "inside", "in")}, {}, {})
+
+Init == CASE Fam = "F9" -> F9 [] Fam = "F1" -> F1 [] Fam = "F2" -> F2 [] Fam = "F3" -> F3 [] Fam = "F4" -> F4 [] Fam = "F7" -> F7
 Next == UNCHANGED <<dev, tgt>>
 
-Out == PrintT(<<"VOUT", ToJson([fam |-> Fam, dev |-> dev, tgt |-> tgt])>>)
+\* non-vacuity of C16: the input offers several equally good matches
+HasTie == \E g, h \in DOMAIN dev.groups : g # h /\ dev.groups[g] = dev.groups[h]
+
+Out == PrintT(<<"VOUT", ToJson([fam |-> Fam, dev |-> dev, tgt |-> tgt, tie |-> HasTie])>>)
 =============================================================================
